@@ -210,8 +210,8 @@ register(Job("C12", "unit_retry_baseexc", make_unit(base_exc=True), tier="thorou
              goals=("exp_val", "exp_default", "exp_raise", "retried"), doc=UNIT_DOC))
 
 
-def _c12_engine(obs: Obs, ref: RefResult, sym: Any) -> Optional[str]:
-    return V.hang(obs) or V.once(obs, ref) or V.args(obs, ref) or V.outcome(obs, ref)
+def _c12_engine(obs: Obs, ref: RefResult, sym: Any) -> Any:
+    return [x for x in (V.hang(obs), V.blocking(obs), V.once(obs, ref), V.args(obs, ref), V.outcome(obs, ref)) if x]
 
 
 SYMS = ["caller input", "durations", "per-attempt outcome kinds of the retrying node and of its sibling", "task-set order"]
